@@ -294,7 +294,7 @@ def gen_case(labels, cfg):
         seed = r.random() * 10 ** r.randint(-3, 12)
     else:
         seed = bytearray(r.getrandbits(8) for _ in range(r.randint(0, 9)))
-    return {"k": enc(seed), "specs": specs, "noise_seed": derive(*labels, "noise")}
+    return {"k": enc(seed), "specs": specs, "noise_seed": derive(*labels, "noise"), "index": labels[2]}
 
 
 def seed_features(case):
